@@ -34,18 +34,25 @@ def _nontrivial(job):
         return bool(a["pairs"]) or any(ord(c) > 127 for c in a["path"] + a["root"] + a["hostU"])
     if kind == "disp":
         return len(a["mounts"]) >= 2 and any(a["p"].startswith(m) for m in a["mounts"] if m)
+    if kind == "envhist":
+        return sum(1 for st in a["steps"] if st[0] not in ("new", "emit")) >= 2
     return len(a["s"]) > 0
 
 
 def _judge(ctx: Ctx, jobs, batch=1500):
-    lines = pmap(ir.run_job, jobs, workers=ctx.workers, chunksize=64)
-    for t, (job, ln) in enumerate(zip(jobs, lines)):
-        ln["t"], ln["i"] = t, 0
-        ctx.count(1, (job[0], repr(job[1])) if _nontrivial(job) else None)
+    results = pmap(ir.run_job, jobs, workers=ctx.workers, chunksize=64)
+    lines, first = [], []
+    for t, (job, res) in enumerate(zip(jobs, results)):
+        group = res if isinstance(res, list) else [res]     # a builder history yields one line per get_environ
+        first.append(group[0] if group else {})
+        for i, ln in enumerate(group):
+            ln["t"], ln["i"] = t, i
+            lines.append(ln)
+        ctx.count(max(1, len(group)), (job[0], repr(job[1])) if _nontrivial(job) else None)
     for r in ctx.judge(AREA, "IriTrace", lines, batch=batch):
         job = jobs[r["t"]]
         ctx.violation(f"{r['clause']}:{job[0]}:{job[1].get('src', 'seeded')}", r["clause"], {"job": [job[0], job[1]]}, kind="c15")
-    return lines
+    return first
 
 
 def run(ctx: Ctx):
@@ -56,7 +63,8 @@ def run(ctx: Ctx):
                 "pushed through every composition of iri_to_uri / uri_to_iri of depth <= 4; (b) every component string of the "
                 "TLC tables embedded in a URL; (c) EnvironBuilder(path, query mapping, base_url) -> Request; (d) a mount table "
                 "and a request path through DispatcherMiddleware (TLC table + seeded Unicode); (e) the latin-1 dance on "
-                "boundary code points; non-trivial = distinct case with an escape or non-ASCII text (a, b), a query pair or "
+                "boundary code points; (e2) builder histories: construct, then assign path / base_url / script_root / host / url_scheme / "
+                "query_string / args (items) in seeded orders, 2-3 get_environ calls on one builder, each judged like (c); non-trivial = distinct case with an escape or non-ASCII text (a, b), a query pair or "
                 "non-ASCII text (c), >= 2 mounts with a matching prefix (d)")
     ctx.assumptions += [
         "urllib.parse.urlsplit/urlunsplit and Python's idna codec are outside the model: the judge re-splits the recorded URLs "
@@ -100,6 +108,9 @@ def run(ctx: Ctx):
         jobs.append(["env", dict(ir.gen_env(rng), src="seeded")])
     for _ in range(1200 if q else 20000):
         jobs.append(["disp", dict(ir.gen_disp(rng), src="seeded")])
+    hrng = random.Random(ctx.seed * 7919 + 17)    # own stream: the cases above stay what they were
+    for _ in range(400 if q else 12000):
+        jobs.append(["envhist", dict(ir.gen_history(hrng), src="history")])
     bounds = [0, 1, 0x7F, 0x80, 0xFF, 0x100, 0x7FF, 0x800, 0xD7FF, 0xE000, 0xFFFD, 0xFFFF, 0x10000, 0x10FFFF]
     for c in bounds:
         jobs.append(["dance", {"s": chr(c), "src": "boundary"}])
@@ -245,9 +256,11 @@ def replay(ctx: Ctx, data):
         for r in ctx.judge(AREA, "EnvRTTrace", [ln]):
             ctx.violation(_key2(r["clause"], job), r["clause"], data["case"], kind="c15")
         return
-    ln = ir.run_job(job)
-    ln["t"], ln["i"] = 0, 0
-    ctx.count(1, ("replay", 0))
+    res = ir.run_job(job)
+    group = res if isinstance(res, list) else [res]
+    for i, ln in enumerate(group):
+        ln["t"], ln["i"] = 0, i
+    ctx.count(len(group), ("replay", 0))
     ctx.sample({"job": job})
-    for r in ctx.judge(AREA, "IriTrace", [ln]):
+    for r in ctx.judge(AREA, "IriTrace", group):
         ctx.violation(f"{r['clause']}:{job[0]}:{job[1].get('src', 'seeded')}", r["clause"], data["case"], kind="c15")
